@@ -340,12 +340,14 @@ func (r *Router) saveStateSnapshot() error {
 		}
 		return nil
 	})
+	verifPoint("snapshot.listed", r.statePath)
 
 	// Write the new snapshot next to the state file and rename it into place
 	// once it is complete: whenever the process dies, the state file is
 	// either the previous snapshot or the new one, never a partial one.
 	tmpPath := r.statePath + ".tmp"
 	err := r.writeStateSnapshot(tmpPath, services)
+	verifPoint("snapshot.written", r.statePath)
 	if err == nil {
 		err = os.Rename(tmpPath, r.statePath)
 	}
@@ -355,6 +357,7 @@ func (r *Router) saveStateSnapshot() error {
 		return err
 	}
 
+	verifPoint("snapshot.done", r.statePath)
 	slog.Debug("Saved state", "path", r.statePath)
 	return nil
 }
@@ -364,6 +367,7 @@ func (r *Router) writeStateSnapshot(path string, services []*Service) error {
 	if err != nil {
 		return err
 	}
+	verifPoint("snapshot.created", path)
 
 	err = json.NewEncoder(f).Encode(services)
 	if err == nil {
